@@ -503,6 +503,11 @@ static int addLeaf(KSI_TreeBuilder *builder, KSI_DataHash *hsh, KSI_MetaData *me
 			KSI_pushError(builder->ctx, res = KSI_BUFFER_OVERFLOW, "The maximum height passed.");
 			goto cleanup;
 		}
+	} else if (calculateHighestLevel(builder, (unsigned)level) > 0xff) {
+		/* No maximum configured: the root of the closed tree still needs a valid level, a leaf that makes
+		 * closing impossible would take the leaves accepted before with it. */
+		KSI_pushError(builder->ctx, res = KSI_BUFFER_OVERFLOW, "The maximum height passed.");
+		goto cleanup;
 	}
 
 	/* Make sure the builder is in a correct state. */
